@@ -4,6 +4,7 @@ CONSTANTS
   MaxN = 10
   MaxSent = 3
   ExtraLens = {21, 34, 40, 55}
+  BlockMax = 7
 SPECIFICATION Spec
-INVARIANTS LevelsWellFormed TypesRight NamesMonotone LmsSorted LevelSorted Final NoUnknown Shrinks
+INVARIANTS LevelsWellFormed TypesRight NamesMonotone NamesFaithful LmsSorted LevelSorted Final NoUnknown Shrinks
 CHECK_DEADLOCK FALSE
